@@ -247,6 +247,20 @@ def survivors_explained_by_k6(obj, called_collective, surviving_jumps):
     return True
 
 
+def setup(ctx):
+    # everything that exists before the first history (imported modules: numpy, scipy, matplotlib, pymatgen ...)
+    # is moved to the permanent generation, so that the many gc.collect() calls of the histories only walk
+    # the objects the histories create
+    import gemdat  # noqa: F401
+
+    gc.collect()
+    gc.freeze()
+
+
+def teardown(ctx):
+    gc.unfreeze()
+
+
 def run_unit(unit, rng, ctx):
     from gemdat.jumps import Jumps
     from gemdat.metrics import TrajectoryMetrics
